@@ -31,7 +31,14 @@ META = {
     "numpy-based property oracle; Spec/PySlice and Spec/PySliceStep are validated against numpy each run.  Every helper "
     "is also called with numpy scalars of every integer dtype (u1..u8, i1..i8) for bounds / lengths / pads / factors - "
     "wherever no quantity the helper has to form leaves the dtype range the answer must equal the python-int answer or "
-    "raise - and roi_from_points with point arrays of every integer dtype up to the dtype limits.",
+    "raise - and roi_from_points with point arrays of every integer dtype up to the dtype limits.  That domain is now a "
+    "THEOREM over the bounded-width carrier (Model/C17Np.lean over C04's NpT, Props/C17Np.lean): normSliceW_eq, padSliceW_eq, "
+    "sliceDimW_eq, alignDownW_eq, alignUpW_eq, scaledDownSliceW_eq, scaledUpSliceW_eq - with every quantity the helper forms "
+    "inside the type (wrap_of_fits) the numpy-scalar computation IS the python-int one; numpy_scalars_wrap_cex outside; the "
+    "carrier is compared with the real code for all eight integer dtypes (inside the domain as a requirement, 8 000+ cases per "
+    "run; on wrapping inputs informationally: 0 differences).  Bounds that are floats / strings are a model with its own error "
+    "type (Bnd / BErr: normSliceB_int, normSliceB_str, wrapNegB_float, sliceDimB_cases; ops bnd norm / bnd dim compared "
+    "exactly).",
     "note": "Trusted: Lean kernel + {propext, Classical.choice, Quot.sound}; numpy slicing as the reference "
     "semantics.  Known (not repaired): a reversed slice with an open bound is normalised to a slice that selects nothing; "
     "roi_shape / roi_is_empty / roi_is_full ignore the step.  Excluded points run on the real code and compared with the "
@@ -40,9 +47,9 @@ META = {
     "(start - pad, n + x, x + align - 1, start * k) leaves the dtype: plain numpy arithmetic, outside the statement; "
     "the spelling oracle is restricted to the no-overflow domain.  NOT mirrored: Tiles / VariableSizedTiles / roi_tiles / "
     "clip_tiles (C04 owns tile indexing), roi_shape of a list (not tuple) roi (AttributeError).  Bounds that are not "
-    "integers (floats, strings) are outside the model (Int): the helpers do no validation - float bounds are answered with "
-    "float results, strings raise TypeError from the comparison - pinned as counted observations "
-    "(non-integer-bound|<fn>|answers / raises), not as a requirement.  roi_from_points is 2-D only by construction: a shape "
+    "integers (floats, strings): the helpers do no validation - float bounds are answered with float results, strings raise "
+    "TypeError from the comparison - modelled for roi_normalise / roi_shape (Bnd), counted observations for the other helpers "
+    "(non-integer-bound|<fn>|answers / raises).  roi_from_points is 2-D only by construction: a shape "
     "of another length is shape_'s ValueError, a point array that is not (N, 2) the AssertionError (both modelled).",
     "technique": "Lean 4 proof over hand model + exhaustive/random differential correspondence with real code",
     "design_ref": "DESIGN.md §4 C17",
@@ -149,6 +156,30 @@ def fmt_ans(o, f) -> str:
     if isinstance(o, tuple):
         return "many " + list_s(list(o), f)
     return "one " + f(o)
+
+
+def npw_soft_check(R, soft):
+    """informational tie of the wrap-around model outside the no-overflow domain: differences are counted, never a violation"""
+    from .common import lean_build, run_driver
+    if not soft:
+        return
+    try:
+        ok, _log = lean_build(["driver_c17"])
+        outs = run_driver("C17", [l for l, _ in soft]) if ok else None
+    except Exception:  # pylint: disable=broad-except
+        outs = None
+    if outs is None:
+        R.notes.append("numpy wrap-around model: driver not available, overflow-domain cases not compared")
+        return
+    diff = [(l, real, m) for (l, real), m in zip(soft, outs) if real != m]
+    R.extra["numpy_wraparound_model_cases"] = len(soft)
+    R.extra["numpy_wraparound_model_differences"] = len(diff)
+    R.count("npw-soft:agree", len(soft) - len(diff))
+    if diff:
+        R.count("npw-soft:differ", len(diff))
+        R.notes.append(f"numpy wrap-around model (Model/C17Np.lean): {len(diff)} of {len(soft)} overflow-domain cases differ from the "
+                       f"bounded-width carrier (outside the statement; not a violation); first: {diff[0][0]} real {diff[0][1]} "
+                       f"model {diff[0][2]}")
 
 
 def sel_set(n, s):
@@ -1000,6 +1031,69 @@ def run(R: Run):
             R.oracle(same(got, want), f"numpy-int-spelling-changes-result:{fn_}", dict(case, fn=fn_),
                      f"{fn_} with {dt_.__name__} scalars ({which}) gives {got}, with python ints {want} (no quantity leaves the dtype range)",
                      sig=f"int-spelling|{fn_}|{dt_.__name__}|{'at-limit' if top == ii.max else 'small'}")
+
+    # --- bounds that are floats / strings as a MODEL (Model/C17Np.lean Bnd): floats are answered with floats, strings raise
+    #     TypeError; compared exactly (dyadic floats)
+    def enc_b(v):
+        return "N" if v is None else "s" if isinstance(v, str) else f"f:{frac_s(v)}" if isinstance(v, float) else f"i:{int(v)}"
+
+    def fmt_b(v):
+        return "s" if isinstance(v, str) else f"f:{frac_s(float(v))}" if isinstance(v, float) else f"i:{int(v)}"
+
+    for _ in range(R.pick(500, 5000)):
+        n = rng.randint(0, 9)
+        pickb = lambda: rng.choice([None, rng.randint(-12, 12), rng.randint(-12, 12), rng.randint(-48, 48) / 4, rng.randint(-24, 24) / 2,
+                                    float(rng.randint(-12, 12)), "a"])
+        a_, b_ = pickb(), pickb()
+        sb = slice(a_, b_)
+        kind_b = "str" if "a" in (a_, b_) else "float" if any(isinstance(v, float) for v in (a_, b_)) else "int"
+        R.corr(f"c17 bnd norm {enc_b(a_)} {enc_b(b_)} {n}",
+               lambda: (lambda o: f"{fmt_b(o.start)} {fmt_b(o.stop)}")(roi.roi_normalise(sb, n)), sig=f"bnd-norm|{kind_b}")
+        R.corr(f"c17 bnd dim {enc_b(a_)} {enc_b(b_)}", lambda: fmt_b(roi.roi_shape(sb)[0]), sig=f"bnd-dim|{kind_b}")
+    # --- every operand a numpy scalar of ONE integer type, INCLUDING the inputs on which the arithmetic wraps around: the
+    #     helpers computed in the bounded-width carrier (NpT.wrap) against the real code; Lean: *_W_eq theorems say that inside
+    #     the no-overflow domain this is the python-int answer
+    import warnings as _w2
+    soft_npw = []
+    for _ in range(R.pick(1500, 15000)):
+        dtn = rng.choice(INT_DT)
+        dt_ = getattr(np, dtn)
+        ii = np.iinfo(dt_)
+        sg, bits = ii.min < 0, ii.bits
+        val = lambda lo=None: min(max(rng.choice([0, 1, 2, 3, 5, 7, 12, rng.randint(0, 20), ii.max, ii.max - 1, ii.max // 2, ii.max // 3,
+                                                  -1, -3, -rng.randint(0, 20), ii.min, ii.min + 1]), ii.min if lo is None else lo), ii.max)
+        a_, b_ = val(), val()
+        n_ = val(0)
+        pad_ = rng.choice([0, 1, 2, 3])
+        k_ = rng.choice([1, 2, 3, 5, 7, 12])
+        pre = f"{bool_s(sg)} {bits}"
+        with np.errstate(all="ignore"), _w2.catch_warnings():
+            _w2.simplefilter("ignore")
+            sp_ = slice(dt_(a_), dt_(b_))
+            fit = lambda *vs: all(ii.min <= v <= ii.max for v in vs)
+            na, nb = (a_ if a_ >= 0 else max(0, n_ + a_)), (b_ if b_ >= 0 else max(0, n_ + b_))
+            au = a_ + k_ - 1 - (a_ + k_ - 1) % k_
+            bu = b_ + k_ - 1 - (b_ + k_ - 1) % k_
+            cases_ = [
+                ("norm", f"{a_} {b_} {n_}", lambda: ns(roi.roi_normalise(sp_, dt_(n_))), fit(n_ + a_, n_ + b_)),
+                ("pad", f"{a_} {b_} {pad_} {n_}", lambda: ns(roi.roi_pad(sp_, dt_(pad_), dt_(n_))),
+                 fit(n_ + a_, n_ + b_, na - pad_, nb + pad_)),
+                ("dim", f"{a_} {b_}", lambda: str(int(roi.roi_shape(sp_)[0])), fit(b_ - a_)),
+                ("aldown", f"{a_} {k_}", lambda: str(int(M.align_down(dt_(a_), dt_(k_)))), fit(a_ - a_ % k_)),
+                ("alup", f"{a_} {k_}", lambda: str(int(M.align_up(dt_(a_), dt_(k_)))), fit(k_ - 1, a_ + k_ - 1, au)),
+                ("down", f"{a_} {b_} {k_}", lambda: ns(roi.scaled_down_roi((sp_, sp_), dt_(k_))[0]), fit(k_ - 1, b_ + k_ - 1, bu)),
+                ("up", f"{a_} {b_} {k_}", lambda: ns(roi.scaled_up_roi((sp_, sp_), dt_(k_))[0]), fit(a_ * k_, b_ * k_)),
+            ]
+            for fn_, args_, call_, inside in cases_:
+                line_ = f"c17 npw {fn_} {pre} {args_}"
+                if inside:
+                    # no quantity leaves the type: a requirement (Lean: the answer is the python-int answer)
+                    R.corr(line_, call_, sig=f"npw|{fn_}|{dtn}|inside")
+                else:
+                    # the arithmetic wraps around: how exactly is numpy's business and an implementation that converts to
+                    # python ints first is just as good - compared with the wrap-around model informationally
+                    soft_npw.append((line_, guarded(call_)))
+    npw_soft_check(R, soft_npw)
 
     # corpus: the replay of finding F11
     pts_case([(5, 5), (1e12, 7)], 100, 100, 0, None, "far")
